@@ -374,6 +374,29 @@ func runOne(sp solverSpec, query string, timeoutS int) SolverResult {
 // then the others on a non-answer; "confirm" additionally requires a second
 // solver family to agree on unsat.
 func Solve(query string, timeoutS int, confirm bool) SolverResult {
+	if !confirm {
+		r := runOne(solverSpecs[0], query, timeoutS)
+		if r.Status == "unsat" || r.Status == "sat" {
+			return r
+		}
+		// race the other two solvers
+		ch := make(chan SolverResult, 2)
+		for _, sp := range solverSpecs[1:] {
+			sp := sp
+			go func() { ch <- runOne(sp, query, timeoutS) }()
+		}
+		best := r
+		for i := 0; i < 2; i++ {
+			r2 := <-ch
+			if r2.Status == "unsat" {
+				return r2
+			}
+			if r2.Status == "sat" && best.Status != "sat" {
+				best = r2
+			}
+		}
+		return best
+	}
 	var first SolverResult
 	for i, sp := range solverSpecs {
 		r := runOne(sp, query, timeoutS)
